@@ -381,6 +381,32 @@ def perturb_case(case, res):
                           f"sample_rate x {f} on the third piece, which has no start time")
             expect_reject([strip_start(a), bare], f"sample_rate x {f}, no piece has a start time")
         res.hits["rate mismatch on a piece without start time"] += 1
+        # the start time of the first piece is the start time of the result, bit for bit (UTC - 0 s is not always exact), also for a
+        # single piece; any sequence container of pieces (list, tuple, deque) along either axis
+        import collections as _cl
+        from astropy.time import Time
+        for iso_ in ("2020-02-01T00:44:30", "2020-02-01T00:44:30.001", "2013-05-13T23:59:44.949", "2021-03-04T05:06:07.25"):
+            t_ = Time(iso_, scale="utc", precision=9)
+            zz = type(z).like(z, start_time=t_)
+            for what, pieces in (("one piece", [zz]), ("two pieces", [zz[:2], zz[2:]]), ("three pieces", [zz[:1], zz[1:1], zz[1:]]),
+                                 ("tuple", (zz[:3], zz[3:])), ("deque", _cl.deque([zz[:3], zz[3:]]))):
+                res.transitions += 1
+                try:
+                    j = pb.concatenate(pieces)
+                except Exception as e:
+                    res.violation(f"container|{what}|raised", f"{type(e).__name__}: {e}", case, {"what": what})
+                    continue
+                if (j.start_time.jd1, j.start_time.jd2) != (zz.start_time.jd1, zz.start_time.jd2):
+                    res.violation("start bit for bit|moved", f"{what} of a signal starting {iso_}: start (jd2) {zz.start_time.jd2!r} came back as "
+                                  f"{j.start_time.jd2!r}", case, {"start": iso_, "what": what})
+            if cls != "Signal":
+                try:
+                    jf = pb.concatenate(_cl.deque([zz[:, :2], zz[:, 2:]]), axis="freq")
+                    if jf.shape != zz.shape:
+                        res.violation("container|deque along freq|shape", f"{jf.shape}", case, None)
+                except Exception as e:
+                    res.violation("container|deque along freq|raised", f"{type(e).__name__}: {e}", case, None)
+        res.hits["start time kept bit for bit, sequence containers"] += 1
         if cls != "Signal":
             # pieces with a trailing sample axis joined along THAT axis: displaced bands must still be refused
             zt = type(z).like(z, np.stack([np.asarray(z.data)] * 2, axis=-1)) if cls in ("RadioSignal", "IntensitySignal", "BasebandSignal") else z
@@ -592,7 +618,7 @@ def main(argv=None):
         PID, gen_cases=gen_cases, check_case=check_case, describe=describe,
         required_hits=["empty piece", "piece without start time", "leading start-less piece (start extrapolated backwards)",
                        "grouping", "non-contiguous in time rejected", "non-contiguous in frequency rejected",
-                       "joined along frequency", "other-axis mismatch rejected", "perturbed piece rejected", "one-sample error far from the start", "unit spellings", "negative axis spelling", "piece stamped on another time scale", "narrow channels at a high sky frequency", "long span", "rate mismatch on a piece without start time", "joins along a trailing sample axis"],
+                       "joined along frequency", "other-axis mismatch rejected", "perturbed piece rejected", "one-sample error far from the start", "unit spellings", "negative axis spelling", "piece stamped on another time scale", "narrow channels at a high sky frequency", "long span", "rate mismatch on a piece without start time", "joins along a trailing sample axis", "start time kept bit for bit, sequence containers"],
         assumptions=["a sequence must be rejected only if two NON-EMPTY start-bearing pieces are inconsistent by >= 1 sample "
                      "(mis-stamped empty pieces are unconstrained); rates above ~10 GHz are outside the quantifier "
                      "(Time.isclose window 40 ps)", "any exception class counts as rejection"],
